@@ -64,17 +64,25 @@ Section PdfState.
   Definition tpd (ivs : list (T * T)) (st : tstate) (t : T) : T :=
     if lt_is_on N ivs t then tp_sig_pd N (snd st) (prof_call N (fst st) t) else nzero N.
 
-  (* _calculate_pd: one output block per source (rows and per-source event
-     times in step); returns the blocks and the state left behind *)
-  Fixpoint calc_pd (ivs : list (T * T)) (tol : T) (st : tstate)
+  (* the loop of _calculate_pd: one output block per source (rows and
+     per-source event times in step); returns the blocks and the state left
+     behind *)
+  Fixpoint calc_loop (ivs : list (T * T)) (tol : T) (st : tstate)
            (rows : list (T * T)) (times : list (list T)) : list (list T) * tstate :=
     match rows, times with
     | r :: rs, ts :: tss =>
         let st' := tstep ivs tol st r in
-        let (out, stf) := calc_pd ivs tol st' rs tss in
+        let (out, stf) := calc_loop ivs tol st' rs tss in
         (map (tpd ivs st') ts :: out, stf)
     | _, _ => ([], st)
     end.
+
+  (* _calculate_pd (after fix 34ac9f2): self._update_S() first — the live-time
+     and the profile instance may have been changed since the last call —
+     then the loop *)
+  Definition calc_pd (ivs : list (T * T)) (tol : T) (st : tstate)
+             (rows : list (T * T)) (times : list (list T)) : list (list T) * tstate :=
+    calc_loop ivs tol (fst st, S_of N ivs (fst st)) rows times.
 
   (* a history of get_pd calls on one object *)
   Fixpoint calc_calls (ivs : list (T * T)) (tol : T) (st : tstate)
@@ -90,6 +98,44 @@ Section PdfState.
   (* the profile reached after a list of rows *)
   Definition rows_profile (tol : T) (p : @profile T) (rows : list (T * T)) : @profile T :=
     fold_left (fun q r => fst (apply_row tol q r)) rows p.
+
+  (* ---------------------------------------------------------------- a TimePDF object under its public operations
+     o_S is the cached _S; it may be stale after the live-time array or the
+     (possibly shared) profile object was changed from outside *)
+  Record tobj : Type := { o_ivs : list (T * T); o_prof : @profile T; o_S : T }.
+
+  Inductive top : Type :=
+  | SetProfile (p : @profile T)            (* time_flux_profile setter: _update_S() *)
+  | SetLivetime (ivs : list (T * T))       (* livetime setter: _update_S() *)
+  | ExtProfile (p : @profile T)            (* the profile object mutated from outside (e.g. by another PDF sharing it) *)
+  | ExtLivetime (ivs : list (T * T))       (* Livetime.uptime_mjd_intervals_arr set from outside *)
+  | EvalSig (rows : list (T * T)) (times : list (list T))   (* SignalTimePDF.get_pd (not pre-computed) *)
+  | EvalBkg (times : list T).              (* BackgroundTimePDF.initialize_for_new_trial + get_pd *)
+
+  Definition ostep (tol : T) (o : tobj) (op : top) : tobj * list (list T) :=
+    match op with
+    | SetProfile p => ({| o_ivs := o_ivs o; o_prof := p; o_S := S_of N (o_ivs o) p |}, [])
+    | SetLivetime ivs => ({| o_ivs := ivs; o_prof := o_prof o; o_S := S_of N ivs (o_prof o) |}, [])
+    | ExtProfile p => ({| o_ivs := o_ivs o; o_prof := p; o_S := o_S o |}, [])
+    | ExtLivetime ivs => ({| o_ivs := ivs; o_prof := o_prof o; o_S := o_S o |}, [])
+    | EvalSig rows times =>
+        let (out, st') := calc_pd (o_ivs o) tol (o_prof o, o_S o) rows times in
+        ({| o_ivs := o_ivs o; o_prof := fst st'; o_S := snd st' |}, out)
+    | EvalBkg times =>
+        (* self._update_S(); np.zeros; pd[on] = profile(t[on]) / S *)
+        let S' := S_of N (o_ivs o) (o_prof o) in
+        ({| o_ivs := o_ivs o; o_prof := o_prof o; o_S := S' |},
+         [map (fun t => if lt_is_on N (o_ivs o) t then tp_bkg_pd N S' (prof_call N (o_prof o) t) else nzero N) times])
+    end.
+
+  Fixpoint orun (tol : T) (o : tobj) (ops : list top) : tobj * list (list (list T)) :=
+    match ops with
+    | [] => (o, [])
+    | op :: r =>
+        let (o', out) := ostep tol o op in
+        let (of, outs) := orun tol o' r in
+        (of, out :: outs)
+    end.
 
   (* ---------------------------------------------------------------- add_events / reset
      state of a BackgroundI3SpatialPDF: _orig_hist, the values the current
@@ -142,5 +188,11 @@ Section PdfState.
         (seq 0 (length h)).
 End PdfState.
 
+Arguments SetProfile {T} _.
+Arguments SetLivetime {T} _.
+Arguments ExtProfile {T} _.
+Arguments ExtLivetime {T} _.
+Arguments EvalSig {T} _ _.
+Arguments EvalBkg {T} _.
 Arguments AddEvents {T} _.
 Arguments Reset {T}.
